@@ -721,6 +721,41 @@ theorem getElem?_of_mem_take {l : List Rect} {n : Nat} {a : Rect} (h : a ∈ l.t
 def CleanBefore (hole : Rect) (s : List Rect) (i : Nat) : Prop :=
   ∀ j m, j < i → s[j]? = some m → Sep m hole
 
+/-- One round of the loop of `tickit_rectset_subtract`, the state afterwards. -/
+theorem subtract_step_phi {s : List Rect} {r hole : Rect} {i fuel : Nat} {t2 : List Rect}
+    (hs : InvS s) (hh : hole.Nonempty) (hi : s[i]? = some r)
+    (hadd : addMany fuel (s.eraseIdx i) (Rect.subtract r hole) = some t2) : Phi s r hole t2 := by
+  have hr : r ∈ s := List.mem_of_getElem? hi
+  have hrne := hs.1 r hr
+  obtain ⟨_, hpne, hpd, hpc⟩ := Props.C06.subtract_spec r hole hrne hh
+  have hpieces : ∀ p ∈ Rect.subtract r hole, p.Nonempty ∧ Within p r ∧ ColClass r hole p ∧ Sep p hole :=
+    fun p hp => ⟨hpne p hp, subtract_pieces r hole p hp⟩
+  have hphi0 : Phi s r hole (s.eraseIdx i) := by
+    refine ⟨invS_eraseIdx hs i, ?_, ?_⟩
+    · intro x hx; exact Or.inl (ne_of_mem_eraseIdx hs hi hx)
+    · intro x hx hlt
+      rcases mem_or_mem_eraseIdx hi hx with rfl | h1
+      · rs_omega
+      · exact ⟨x, h1, rfl, rfl⟩
+  have hdisj0 : ∀ p ∈ Rect.subtract r hole, ∀ l c, p.Mem l c → ¬ Covered (s.eraseIdx i) l c := by
+    intro p hp l c hm ⟨x, hx, hxm⟩
+    obtain ⟨h1, h2⟩ := ne_of_mem_eraseIdx hs hi hx
+    have hap := invS_apart hs h1 hr h2
+    have hw := (subtract_pieces r hole p hp).1
+    unfold Within at hw
+    rs_omega
+  exact phi_pieces hs hr hh _ fuel _ t2 hadd hphi0 hpieces hpd hdisj0
+
+/-- After one round, every member is an old member other than the split one, or does not meet the hole. -/
+theorem subtract_step_mem {s : List Rect} {r hole : Rect} {i fuel : Nat} {t2 : List Rect}
+    (hs : InvS s) (hh : hole.Nonempty) (hi : s[i]? = some r) (_hcb : CleanBefore hole s i)
+    (hadd : addMany fuel (s.eraseIdx i) (Rect.subtract r hole) = some t2) :
+    ∀ x ∈ t2, (x ∈ s ∧ x ≠ r) ∨ Sep x hole := by
+  intro x hx
+  rcases (subtract_step_phi hs hh hi hadd).mem x hx with h | h
+  · exact Or.inl h
+  · exact Or.inr h.2
+
 /-- One round of the loop of `tickit_rectset_subtract` on a member that meets the hole: after deleting it
     and re-adding its remains, the members before the index still do not meet the hole. -/
 theorem subtract_step {s : List Rect} {r hole : Rect} {i fuel : Nat} {t2 : List Rect}
